@@ -49,3 +49,8 @@ package transport
 //@   ensures isnil(result) ==> stream_at(p.c, old(rpos(p.c))) == 0 && stream_at(p.c, old(rpos(p.c)) + 1) == 83 && stream_at(p.c, old(rpos(p.c)) + 2) == 80 && stream_at(p.c, old(rpos(p.c)) + 3) == 0
 //@   ensures isnil(result) ==> sbe16(p.c, old(rpos(p.c)) + 4) == p.proto.Peer && stream_at(p.c, old(rpos(p.c)) + 6) == 0 && stream_at(p.c, old(rpos(p.c)) + 7) == 0
 //@   ensures isnil(result) ==> rpos(p.c) == old(rpos(p.c)) + 8
+//@
+//@ func (*connHandshaker).worker
+//@   before call:Close#1 assert !isnil(item.e) && held(h.Mutex)
+//@   before call:Close#2 assert isnil(at("call:Lock#1", item.e)) && h.closed && held(h.Mutex)
+//@   before call:append#1 assert item.e == mangos.ErrClosed || !h.closed || item.c == nil
